@@ -140,6 +140,7 @@ type FnCtx struct {
 	posText      map[token.Pos]string
 	cur          *ssa.BasicBlock
 	curIdx       int
+	preserve     []string
 	preCallHeap  *Heap
 	preCallGhost map[string]string
 	retReach     []string
